@@ -27,7 +27,7 @@ reg(
     "Generated-input search over all 8 edge kinds with operands from all sign/quaternion/angle/scale classes (w<0, w=0, |w| tiny, theta at +-pi, "
     "S up to 1e6, rotated offsets): every Jacobian entry for both vertices is compared with an exact AD derivative of an independently "
     "written error model (1e-11) and with extrapolated central differences of calc_error itself (1e-8). 3.2e4 (quick) / 9.6e5 (thorough) edges. "
-    "Sampling, not proof.",
+    "History sub-check: Jacobians requested before any other query and again after the vertices moved to a second state (incl. the same pose as -q / theta+2pi), with arbitrary fixed flags. Sampling, not proof.",
     TRUSTED + "SE(2) angular-error wrap and a possible SE(3) error sign flip are handled by comparing modulo the wrap/sign.",
 )
 reg(
